@@ -3,8 +3,8 @@
 # with the evaluation copy of the framework (/tmp/verif_eval, a clone of the committed /verif) so that the development tree
 # is not disturbed.
 p=$1; n=$2; d=/verif/seeded/$p-$n
-mkdir -p $d && cp /tmp/seedf_out_$p/patch.diff /tmp/seedf_out_$p/demo.py /tmp/seedf_out_$p/meta.json $d/ || exit 1
-git -C /repo worktree remove --force /tmp/seedf_$p 2>/dev/null
+mkdir -p $d && cp /tmp/${SEEDPFX:-seedf}_out_$p/patch.diff /tmp/${SEEDPFX:-seedf}_out_$p/demo.py /tmp/${SEEDPFX:-seedf}_out_$p/meta.json $d/ || exit 1
+git -C /repo worktree remove --force /tmp/${SEEDPFX:-seedf}_$p 2>/dev/null
 mkdir -p /tmp/evlogs
 E=${EVALDIR:-/tmp/verif_eval}
 ( cd $E && python3 tools/eval_seed.py $p $d > /tmp/evlogs/$p-$n.log 2>&1 & )
